@@ -1643,20 +1643,15 @@ func ruleCallProto(p *Program, r *Reporter) {
 	run := a.vmRun
 	var getFn *ssa.Call
 	var userLookup *ssa.Lookup
-	for _, b := range run.Blocks {
-		for _, ins := range b.Instrs {
-			if !strings.Contains(outerCase(p, run, ins.Pos()), "OpCall") {
-				continue
+	for _, ins := range handlerInstrs(p, a, "OpCall") {
+		switch x := ins.(type) {
+		case *ssa.Call:
+			if x.Call.StaticCallee() != nil && x.Call.StaticCallee().Name() == "GetFunction" {
+				getFn = x
 			}
-			switch x := ins.(type) {
-			case *ssa.Call:
-				if x.Call.StaticCallee() != nil && x.Call.StaticCallee().Name() == "GetFunction" {
-					getFn = x
-				}
-			case *ssa.Lookup:
-				if u, ok := x.X.(*ssa.UnOp); ok && fieldKey(u.X) == "vm.VM.functions" {
-					userLookup = x
-				}
+		case *ssa.Lookup:
+			if u, ok := x.X.(*ssa.UnOp); ok && fieldKey(u.X) == "vm.VM.functions" {
+				userLookup = x
 			}
 		}
 	}
@@ -1664,7 +1659,14 @@ func ruleCallProto(p *Program, r *Reporter) {
 		r.Undecided("call handler lookups", p.Pos(run.Pos()), "cannot find the host-table lookup and the user-function lookup in the call handler")
 		return
 	}
-	r.Check(dominatesInstr(getFn, userLookup), "a built-in wins over a user-defined function", p.Pos(getFn.Pos()), "the host/built-in table is consulted first", "user-defined functions are looked up before (or without) the host/built-in table: a script can shadow a built-in")
+	// the two lookups seen from the function that holds both (the later one
+	// possibly through the call that leads to it)
+	lg, lu := liftPair(p, getFn, userLookup)
+	if lg == nil || lu == nil {
+		r.Undecided("call handler lookups", p.Pos(run.Pos()), "the host-table lookup and the user-function lookup are in functions neither of which is reached only from the other")
+		return
+	}
+	r.Check(dominatesInstr(lg, lu) && lg == ssa.Instruction(getFn), "a built-in wins over a user-defined function", p.Pos(getFn.Pos()), "the host/built-in table is consulted first", "user-defined functions are looked up before (or without) the host/built-in table: a script can shadow a built-in")
 	// the user lookup happens only when the built-in was not found
 	viaMiss := false
 	for _, ref := range liveRefs(getFn) {
@@ -1672,7 +1674,7 @@ func ruleCallProto(p *Program, r *Reporter) {
 			for _, r2 := range liveRefs(ex) {
 				if iff, ok := r2.(*ssa.If); ok {
 					miss := iff.Block().Succs[1]
-					if miss == userLookup.Block() || miss.Dominates(userLookup.Block()) {
+					if lg == ssa.Instruction(getFn) && (miss == lu.Block() || miss.Dominates(lu.Block())) {
 						viaMiss = true
 					}
 				}
@@ -1713,12 +1715,19 @@ func ruleCallProto(p *Program, r *Reporter) {
 	// arity check dominates the re-entry
 	arity := false
 	var reentry ssa.Instruction
+	inHandler := map[ssa.Instruction]bool{}
+	for _, ins := range handlerInstrs(p, a, "OpCall") {
+		inHandler[ins] = true
+	}
 	for _, re := range runReentries(p, run) {
 		if re.fn == run {
 			reentry = re.call.(ssa.Instruction)
 		} else {
-			for _, c := range callsTo(run, re.fn) {
-				reentry = c.(ssa.Instruction)
+			// the function that re-enters the interpreter: its call in the handler
+			for _, site := range staticCallSites(p, re.fn) {
+				if inHandler[site.(ssa.Instruction)] {
+					reentry = site.(ssa.Instruction)
+				}
 			}
 		}
 	}
